@@ -69,9 +69,11 @@ def _pass_through(ctx, P):
             vals = list(o.value) if isinstance(o.value, (list, tuple)) else [o.value]
             g = o.env.get("grid")
             for v in vals:
-                if not (isinstance(v, Obj) and v.eff and v.eff[-1][0] == "REATTACH"):
+                ra = [e for e in (v.eff if isinstance(v, Obj) else ()) if e[0] == "REATTACH"]
+                tail = [e[0] for e in v.eff[v.eff.index(ra[-1]) + 1:]] if ra else []
+                if not ra or any(op not in ("transpose", "copy", "astype", "chunk", "squeeze") for op in tail):  # the tail may not touch coordinates
                     bad = f"a returned array does not come out of _reattach_coords ({v!r})"
-                elif v.eff[-1][1] is not g or v.eff[-1][2] != Sym("USER_KEEP"):
+                elif ra[-1][1] is not g or ra[-1][2] != Sym("USER_KEEP"):
                     bad = "coordinates are re-attached from another grid / with a keep_coords other than the caller's"
         if bad:
             ctx.report("R19.1", fi, f"apply_as_grid_ufunc, {name}", bad)
